@@ -44,7 +44,9 @@ def gen_case(rng, pair=None):
     for i in range(nb):
         nrexcl = pair[i] if pair else rng.choice([0, 1, 1, 2, 3, 4])
         explicit = (not pair) and rng.random() < 0.35
-        blocks.append(ffgen.gen_block(rng, f'R{"ABC"[i]}', natoms=rng.randint(3, 5) if explicit else rng.randint(1, 3), nrexcl=nrexcl))
+        shortcut = (not pair) and rng.random() < 0.3
+        blocks.append(ffgen.gen_block(rng, f'R{"ABC"[i]}', natoms=rng.randint(4, 5) if shortcut else rng.randint(3, 5) if explicit else rng.randint(1, 3),
+                                      nrexcl=nrexcl))
         blocks[-1]['inters'].pop('exclusions', None)
         if explicit:
             # explicit exclusion lines of the block, also with more than two atoms (GROMACS: the first atom
@@ -72,6 +74,21 @@ def gen_case(rng, pair=None):
         if key not in seen:
             seen.add(key)
             uniq.append(l)
+    # a link that, besides joining the residues, bonds two atoms of ONE residue which the block itself leaves unbonded
+    # (the bond graph the exclusion distances are measured on includes it)
+    if not pair and rng.random() < 0.5 and uniq:
+        l = rng.choice(uniq)
+        nxt = [b for b in blocks if b['name'] in l['resnames'] and first[b['name']] == l['inters']['bonds'][0]['atoms'][1][1]]
+        if nxt and len(nxt[0]['atoms']) >= 3:
+            b = nxt[0]
+            bonded = {frozenset(r['atoms']) for sec in ('bonds', 'constraints') for r in b['inters'].get(sec, [])}
+            free = [(i, j) for i in range(len(b['atoms'])) for j in range(i + 1, len(b['atoms'])) if frozenset((i, j)) not in bonded]
+            if free:
+                # prefer the pair that is farthest apart inside the block: the link bond is a real shortcut
+                d = bfs_dist([tuple(x) for x in bonded if len(x) == 2], range(len(b['atoms'])))
+                free.sort(key=lambda ij: -d[ij[0]].get(ij[1], 99))
+                i, j = free[0] if rng.random() < 0.7 else rng.choice(free)
+                l['inters']['bonds'].append({'atoms': [('+', b['atoms'][i]['name']), ('+', b['atoms'][j]['name'])], 'params': ['1', '0.280', '900.000'], 'meta': {}})
     ff = {'blocks': blocks, 'links': uniq}
     g = ffgen.gen_resgraph(rng, ff, nres=rng.randint(2, 6))
     if pair:
@@ -157,7 +174,12 @@ def run(ctx):
                           {'ff': ff, 'graph': g, 'failure': 'generated line is not a pair'})
         m_impl = out['links']['nrexcl']
         keys = [a['key'] for a in atoms]
-        dist = bfs_dist(edges, keys)
+        # the bond graph of the generated molecule: every bond and constraint it carries (block edges included)
+        bond_edges = {tuple(sorted(r['atoms'][:2])) for sec in ('bonds', 'constraints') for r in out['links']['inters'].get(sec, [])}
+        lacking = sorted(bond_edges - {tuple(sorted(e)) for e in edges})
+        if lacking:
+            ctx.feature('bond_without_edge')
+        dist = bfs_dist(sorted(bond_edges | {tuple(sorted(e)) for e in out['map']['edges']}), keys)
         # independent judge of the statement
         bad = []
         m_want = min(vals)
